@@ -81,7 +81,9 @@ def gen_case(rng: random.Random) -> dict[str, Any]:
             "specs": specs, "script": script, "exit_at": exit_at, "nested_owner": rng.random() < 0.4,
             # a failure that is remembered and raised again: tasks failing in the same way raise one and the same
             # exception object
-            "shared_exc": rng.random() < 0.3}
+            "shared_exc": rng.random() < 0.3,
+            # the block of the owning context ends with an exception (one case in four)
+            "exit_exc": rng.random() < 0.25}
 
 
 class C09(Prop):
@@ -224,6 +226,8 @@ class C09(Prop):
         for e in impl["trace"]:
             f.add("label_" + e["l"][0])
         ended = [e["l"][2] for e in impl["trace"] if e["l"][0] == "taskEnded" and e["l"][2] is not None]
+        if case.get("exit_exc"):
+            f.add("owner_block_raised")
         if case.get("shared_exc") and len(ended) != len(set(ended)):
             f.add("one_exception_object_raised_by_several_tasks")
         for s in case["script"]:
